@@ -2755,3 +2755,119 @@ func c08r27(rc *core.RC) {
 		rc.Unknown("vm/cycle-searches", token.NoPos, "found %d clauses that search and record ctx.SeenPtr (confirmed: 4, one per interpreter)", n)
 	}
 }
+
+// ---- C08.R28 every walk over a program leaves an element loop through End ----
+
+// In a compiled program the operations that close the body of a loop over elements (OpSliceElem, OpArrayElem,
+// OpMapKey and their families) point back into the body with Next and behind the loop with End. A walk that visits
+// every operation once (IterNext, Dump, DumpDOT) therefore has to follow End at exactly these code types; following
+// Next there walks the body for ever. Obligation: in package encoder, every switch over <x>.Op.CodeType() that
+// advances x (x = x.Next / x = x.End / return x.End …) sends exactly CodeArrayElem, CodeSliceElem and CodeMapKey
+// to End.
+func c08r28(rc *core.RC) {
+	p := rc.P
+	want := map[string]bool{"CodeArrayElem": true, "CodeSliceElem": true, "CodeMapKey": true}
+	n := 0
+	for _, fd := range p.Funcs("encoder") {
+		if fd.Body == nil {
+			continue
+		}
+		info := p.Info(fd)
+		k := 0
+		ast.Inspect(fd.Body, func(m ast.Node) bool {
+			sw, ok := m.(*ast.SwitchStmt)
+			if !ok || sw.Tag == nil {
+				return true
+			}
+			call, ok := core.Unparen(sw.Tag).(*ast.CallExpr)
+			if !ok || !strings.HasSuffix(core.CalleeName(info, call), "OpType.CodeType") {
+				return true
+			}
+			sel, ok := core.Unparen(call.Fun).(*ast.SelectorExpr)
+			if !ok {
+				return true
+			}
+			opSel, ok := core.Unparen(sel.X).(*ast.SelectorExpr)
+			if !ok || opSel.Sel.Name != "Op" {
+				return true
+			}
+			walker := core.ObjOf(info, opSel.X)
+			if walker == nil {
+				return true
+			}
+			// how each clause advances the walker
+			step := func(body []ast.Stmt) string {
+				res := ""
+				for _, st := range body {
+					ast.Inspect(st, func(q ast.Node) bool {
+						var rhs ast.Expr
+						switch x := q.(type) {
+						case *ast.AssignStmt:
+							if len(x.Lhs) == 1 && len(x.Rhs) == 1 && core.ObjOf(info, x.Lhs[0]) == walker {
+								rhs = x.Rhs[0]
+							}
+						case *ast.ReturnStmt:
+							if len(x.Results) == 1 {
+								rhs = x.Results[0]
+							}
+						}
+						if rhs != nil {
+							if s, isSel := core.Unparen(rhs).(*ast.SelectorExpr); isSel && core.ObjOf(info, s.X) == walker && (s.Sel.Name == "End" || s.Sel.Name == "Next") {
+								res = s.Sel.Name
+							}
+						}
+						return true
+					})
+				}
+				return res
+			}
+			toEnd := map[string]bool{}
+			steps := 0
+			for _, st := range sw.Body.List {
+				cc := st.(*ast.CaseClause)
+				s := step(cc.Body)
+				if s != "" {
+					steps++
+				}
+				if s == "End" {
+					for _, l := range cc.List {
+						toEnd[types.ExprString(core.Unparen(l))] = true
+					}
+				}
+			}
+			if steps == 0 {
+				return true
+			}
+			// the statement behind the switch may be the default step (return c.Next behind the switch)
+			n++
+			k++
+			rc.Touch(p.FuncName(fd))
+			key := fmt.Sprintf("%s/walk#%d leaves-element-loops-through-End", p.FuncName(fd), k)
+			var missing, extra []string
+			for w := range want {
+				if !toEnd[w] {
+					missing = append(missing, w)
+				}
+			}
+			for g := range toEnd {
+				if !want[g] {
+					extra = append(extra, g)
+				}
+			}
+			sort.Strings(missing)
+			sort.Strings(extra)
+			switch {
+			case len(missing) > 0:
+				rc.Bad(key, sw.Pos(), "the walk follows Next at %s: the operation that closes the body of an element loop points back into the body with Next, so the walk never reaches the end of a program that holds such a loop (Debug with DebugDOT, Dump)", strings.Join(missing, ", "))
+			case len(extra) > 0:
+				rc.Bad(key, sw.Pos(), "the walk follows End at %s, which is no operation that closes an element loop: the operations between it and its End are not visited", strings.Join(extra, ", "))
+			default:
+				rc.OK(key, sw.Pos(), "CodeArrayElem, CodeSliceElem and CodeMapKey step to End, everything else to Next")
+			}
+			return true
+		})
+	}
+	if n < 3 {
+		rc.Unknown("encoder/program-walks", token.NoPos, "found %d walks over a program by code type, fewer than the 3 confirmed by hand (IterNext, Dump, DumpDOT)", n)
+	}
+}
